@@ -65,9 +65,11 @@ def decide(pid, P, tier, seed, replay, scratch, t0):
     notes = []
 
     # ---- 1. builds from the tree under test
-    extract_bin = engine.build_go_tool(scratch, "extract", tags="")
-    harness_bin = engine.build_go_tool(scratch, "harness", tags="verif", race=P.get("race", False) and tier == "thorough")
     env_extra = {}
+    extract_bins = [engine.build_go_tool(scratch, "extract", tags=""), engine.build_go_tool(scratch, "extract2", tags="")]
+    harness_bin = engine.build_go_tool(scratch, "harness", tags="verif", race=P.get("race", False))
+    if P.get("race"):
+        env_extra["GORACE"] = "halt_on_error=1 exitcode=66"
     if P.get("cli"):
         env_extra["VERIF_TASK_BIN"] = engine.build_cli(scratch)
     if P.get("cli_race") and tier == "thorough":
@@ -81,7 +83,7 @@ def decide(pid, P, tier, seed, replay, scratch, t0):
     thms = []
     driver_bin = scratch.path("driver")
     with engine.LeanLock():
-        changed = engine.regenerate_gen(scratch, extract_bin)
+        changed = engine.regenerate_gen(scratch, extract_bins)
         if changed:
             log("generated tables changed: %s" % ", ".join(changed))
         ok, out = engine.lake_build([module])
